@@ -1,6 +1,6 @@
 /-
 C19 — lemmas for the N-thread interleaving semantics (EPV.Globals.Thr): the inductive
-invariant over the step relation.
+invariant over the step relation, progress, termination measure, schedule independence.
 -/
 import EPV.Lemmas.Globals
 namespace EPV.Globals.Thr
@@ -10,19 +10,15 @@ program point knows about the shared state.  Points outside the critical section
 def TInv (L : Loc) (s : Shared) (t : Thread) : Prop :=
   match t.pc with
   | .idle => True
-  | .acquire _ _ => True
-  | .query _ _ => s.lc = L
-  | .setReq _ _ saved => saved = L ∧ s.lc = L
-  | .setFb saved => saved = L ∧ s.lc = L
-  | .failRelease => s.lc = L
-  | .body none none _ => True
-  | .body none (some _) _ => False
-  | .body (some _) none _ => False
-  | .body (some saved) (some tg) _ => saved = L ∧ s.lc = tg
-  | .restore saved => saved = L
-  | .release => s.lc = L
+  | .acquire _ => True
+  | .query _ => s.lc = L
+  | .trySet _ saved => saved = L ∧ s.lc = L
+  | .tryFb saved => saved = L ∧ s.lc = L
+  | .call eff saved => saved = L ∧ s.lc = eff
+  | .restore saved _ => saved = L
+  | .release _ => s.lc = L
 
-/-- every recorded `strcoll` saw the locale its own scope installed -/
+/-- every recorded `strcoll`/`strxfrm` ran under the locale its manager wanted -/
 def SeenOK (t : Thread) : Prop := ∀ p ∈ t.seen, p.2 = p.1
 
 /-- how one step of a thread can affect the lock -/
@@ -34,7 +30,6 @@ inductive Effect (s s' : Shared) (t t' : Thread) : Prop where
   | release : t.pc.holds = true → t'.pc.holds = false → s'.lock = false → s'.lc = s.lc →
       Effect s s' t t'
 
-set_option linter.unnecessarySimpa false in
 /-- local preservation: one step of one thread -/
 theorem step_local (w : World) (L : Loc) (hL : w.avail L = true) (s s' : Shared) (t t' : Thread)
     (h : step w s t = some (s', t')) (hT : TInv L s t) (hS : SeenOK t)
@@ -46,18 +41,11 @@ theorem step_local (w : World) (L : Loc) (hL : w.avail L = true) (s s' : Shared)
     simp only [hpc] at h
     cases htd : t.todo with
     | nil => simp [htd] at h
-    | cons j js =>
-      simp only [htd] at h
-      cases hj : j.mgr.lc with
-      | none =>
-        simp only [hj, Option.some.injEq, Prod.mk.injEq] at h
-        obtain ⟨rfl, rfl⟩ := h
-        exact ⟨by simp [TInv], hS, hfree, .outside (by simp [hpc, Pc.holds]) (by simp [Pc.holds]) rfl⟩
-      | some req =>
-        simp only [hj, Option.some.injEq, Prod.mk.injEq] at h
-        obtain ⟨rfl, rfl⟩ := h
-        exact ⟨by simp [TInv], hS, hfree, .outside (by simp [hpc, Pc.holds]) (by simp [Pc.holds]) rfl⟩
-  | acquire req fb =>
+    | cons b bs =>
+      simp only [htd, Option.some.injEq, Prod.mk.injEq] at h
+      obtain ⟨rfl, rfl⟩ := h
+      exact ⟨by simp [TInv], hS, hfree, .outside (by simp [hpc, Pc.holds]) (by simp [Pc.holds]) rfl⟩
+  | acquire b =>
     simp only [hpc] at h
     cases hl : s.lock with
     | true => simp [hl] at h
@@ -66,34 +54,48 @@ theorem step_local (w : World) (L : Loc) (hL : w.avail L = true) (s s' : Shared)
       obtain ⟨rfl, rfl⟩ := h
       exact ⟨by simp [TInv, hfree hl], hS, by simp,
         .acquire (by simp [hpc, Pc.holds]) (by simp [Pc.holds]) hl rfl rfl⟩
-  | query req fb =>
+  | query b =>
     simp only [hpc, Option.some.injEq, Prod.mk.injEq] at h
     obtain ⟨rfl, rfl⟩ := h
     have : s.lc = L := by simpa [TInv, hpc] using hT
     exact ⟨by simp [TInv, this], hS, hfree,
       .inside (by simp [hpc, Pc.holds]) (by simp [Pc.holds]) rfl⟩
-  | setReq req fb saved =>
+  | trySet b saved =>
     simp only [hpc] at h
     have hT' : saved = L ∧ s.lc = L := by simpa [TInv, hpc] using hT
     have hlock : s.lock = true := hlk (by simp [hpc, Pc.holds])
-    by_cases ha : w.avail (w.norm req) = true
-    · simp only [ha, ↓reduceIte, Option.some.injEq, Prod.mk.injEq] at h
-      obtain ⟨rfl, rfl⟩ := h
-      exact ⟨by simp [TInv, hT'.1], hS, by simp [hlock],
-        .inside (by simp [hpc, Pc.holds]) (by simp [Pc.holds]) rfl⟩
-    · simp only [ha, Bool.false_eq_true, ↓reduceIte] at h
-      cases fb with
-      | true =>
-        simp only [↓reduceIte, Option.some.injEq, Prod.mk.injEq] at h
+    cases b with
+    | probe req fb =>
+      simp only at h
+      by_cases ha : w.avail (w.norm req) = true
+      · simp only [ha, ↓reduceIte, Option.some.injEq, Prod.mk.injEq] at h
+        obtain ⟨rfl, rfl⟩ := h
+        exact ⟨by simp [TInv, hT'.1], hS, by simp [hlock],
+          .inside (by simp [hpc, Pc.holds]) (by simp [Pc.holds]) rfl⟩
+      · simp only [ha, Bool.false_eq_true, ↓reduceIte] at h
+        cases fb with
+        | true =>
+          simp only [↓reduceIte, Option.some.injEq, Prod.mk.injEq] at h
+          obtain ⟨rfl, rfl⟩ := h
+          exact ⟨by simp [TInv, hT'], hS, hfree,
+            .inside (by simp [hpc, Pc.holds]) (by simp [Pc.holds]) rfl⟩
+        | false =>
+          simp only [Bool.false_eq_true, ↓reduceIte, Option.some.injEq, Prod.mk.injEq] at h
+          obtain ⟨rfl, rfl⟩ := h
+          exact ⟨by simp [TInv, hT'], hS, hfree,
+            .inside (by simp [hpc, Pc.holds]) (by simp [Pc.holds]) rfl⟩
+    | use eff =>
+      simp only at h
+      by_cases ha : w.avail eff = true
+      · simp only [ha, ↓reduceIte, Option.some.injEq, Prod.mk.injEq] at h
+        obtain ⟨rfl, rfl⟩ := h
+        exact ⟨by simp [TInv, hT'.1], hS, by simp [hlock],
+          .inside (by simp [hpc, Pc.holds]) (by simp [Pc.holds]) rfl⟩
+      · simp only [ha, Bool.false_eq_true, ↓reduceIte, Option.some.injEq, Prod.mk.injEq] at h
         obtain ⟨rfl, rfl⟩ := h
         exact ⟨by simp [TInv, hT'], hS, hfree,
           .inside (by simp [hpc, Pc.holds]) (by simp [Pc.holds]) rfl⟩
-      | false =>
-        simp only [Bool.false_eq_true, ↓reduceIte, Option.some.injEq, Prod.mk.injEq] at h
-        obtain ⟨rfl, rfl⟩ := h
-        exact ⟨by simp [TInv, hT'], hS, hfree,
-          .inside (by simp [hpc, Pc.holds]) (by simp [Pc.holds]) rfl⟩
-  | setFb saved =>
+  | tryFb saved =>
     simp only [hpc] at h
     have hT' : saved = L ∧ s.lc = L := by simpa [TInv, hpc] using hT
     have hlock : s.lock = true := hlk (by simp [hpc, Pc.holds])
@@ -106,52 +108,18 @@ theorem step_local (w : World) (L : Loc) (hL : w.avail L = true) (s s' : Shared)
       obtain ⟨rfl, rfl⟩ := h
       exact ⟨by simp [TInv, hT'], hS, hfree,
         .inside (by simp [hpc, Pc.holds]) (by simp [Pc.holds]) rfl⟩
-  | failRelease =>
+  | call eff saved =>
     simp only [hpc, Option.some.injEq, Prod.mk.injEq] at h
     obtain ⟨rfl, rfl⟩ := h
-    have : s.lc = L := by simpa [TInv, hpc] using hT
-    exact ⟨by simp [TInv], hS, fun _ => this,
-      .release (by simp [hpc, Pc.holds]) (by simp [Pc.holds]) rfl rfl⟩
-  | body saved target n =>
-    simp only [hpc] at h
-    cases n with
-    | succ n =>
-      simp only [Option.some.injEq, Prod.mk.injEq] at h
-      obtain ⟨rfl, rfl⟩ := h
-      refine ⟨?_, ?_, hfree, ?_⟩
-      · cases saved <;> cases target <;> simpa [TInv, hpc] using hT
-      · cases target with
-        | none => exact hS
-        | some tg =>
-          intro p hp
-          simp only [List.mem_append, List.mem_singleton] at hp
-          rcases hp with hp | rfl
-          · exact hS p hp
-          · cases saved with
-            | none => simp [TInv, hpc] at hT
-            | some sv =>
-              have : sv = L ∧ s.lc = tg := by simpa [TInv, hpc] using hT
-              exact this.2
-      · cases saved with
-        | none => exact .outside (by simp [hpc, Pc.holds]) (by simp [Pc.holds]) rfl
-        | some sv => exact .inside (by simp [hpc, Pc.holds]) (by simp [Pc.holds]) rfl
-    | zero =>
-      cases saved with
-      | none =>
-        simp only [Option.some.injEq, Prod.mk.injEq] at h
-        obtain ⟨rfl, rfl⟩ := h
-        exact ⟨by simp [TInv], hS, hfree,
-          .outside (by simp [hpc, Pc.holds]) (by simp [Pc.holds]) rfl⟩
-      | some sv =>
-        simp only [Option.some.injEq, Prod.mk.injEq] at h
-        obtain ⟨rfl, rfl⟩ := h
-        cases target with
-        | none => simp [TInv, hpc] at hT
-        | some tg =>
-          have : sv = L ∧ s.lc = tg := by simpa [TInv, hpc] using hT
-          exact ⟨by simp [TInv, this.1], hS, hfree,
-            .inside (by simp [hpc, Pc.holds]) (by simp [Pc.holds]) rfl⟩
-  | restore sv =>
+    have hT' : saved = L ∧ s.lc = eff := by simpa [TInv, hpc] using hT
+    refine ⟨by simp [TInv, hT'.1], ?_, hfree,
+      .inside (by simp [hpc, Pc.holds]) (by simp [Pc.holds]) rfl⟩
+    intro p hp
+    simp only [List.mem_append, List.mem_singleton] at hp
+    rcases hp with hp | rfl
+    · exact hS p hp
+    · exact hT'.2
+  | restore sv out =>
     simp only [hpc] at h
     have hsv : sv = L := by simpa [TInv, hpc] using hT
     have hlock : s.lock = true := hlk (by simp [hpc, Pc.holds])
@@ -160,7 +128,7 @@ theorem step_local (w : World) (L : Loc) (hL : w.avail L = true) (s s' : Shared)
     obtain ⟨rfl, rfl⟩ := h
     exact ⟨by simp [TInv], hS, by simp [hlock],
       .inside (by simp [hpc, Pc.holds]) (by simp [Pc.holds]) rfl⟩
-  | release =>
+  | release out =>
     simp only [hpc, Option.some.injEq, Prod.mk.injEq] at h
     obtain ⟨rfl, rfl⟩ := h
     have : s.lc = L := by simpa [TInv, hpc] using hT
@@ -172,10 +140,7 @@ shared state -/
 theorem TInv_outside (L : Loc) (s s' : Shared) (u : Thread) (hu : u.pc.holds = false)
     (h : TInv L s u) : TInv L s' u := by
   unfold TInv at *
-  cases hpc : u.pc with
-  | body saved target n =>
-    cases saved <;> cases target <;> simp_all [Pc.holds]
-  | _ => simp_all [Pc.holds]
+  cases hpc : u.pc <;> simp_all [Pc.holds]
 
 /-- the per-thread knowledge only concerns `lc` -/
 theorem TInv_lc (L : Loc) (s s' : Shared) (u : Thread) (hlc : s'.lc = s.lc)
@@ -189,8 +154,8 @@ theorem TInv_lc (L : Loc) (s s' : Shared) (u : Thread) (hlc : s'.lc = s.lc)
 def holders (ts : List Thread) : Nat := ts.countP (·.pc.holds)
 
 /-- The inductive invariant: the lock bit counts the holders (so at most one), a free lock means
-the initial locale is in place, every thread's local knowledge is right, every observation made
-by a body was of its own locale. -/
+the initial locale is in place, every thread's local knowledge is right, every comparison made
+so far ran under the locale its manager wanted. -/
 structure Inv (L : Loc) (c : Config) : Prop where
   count : holders c.ts = if c.sh.lock then 1 else 0
   free : c.sh.lock = false → c.sh.lc = L
@@ -223,8 +188,7 @@ theorem inv_step (w : World) (L : Loc) (hL : w.avail L = true) (c c' : Config)
     have others : ∀ u, u ∈ pre ∨ u ∈ post → u ∈ pre ++ t :: post := by
       intro u hu; rcases hu with hu | hu <;> simp [hu]
     refine ⟨?_, hfree', ?_, ?_⟩
-    · -- counting
-      simp only [holders_split]
+    · simp only [holders_split]
       cases eff with
       | outside h1 h2 h3 => subst h3; simp only [h1, h2] at hcount ⊢; exact hcount
       | acquire h1 h2 h3 h4 h5 =>
@@ -235,8 +199,7 @@ theorem inv_step (w : World) (L : Loc) (hL : w.avail L = true) (c c' : Config)
         have hl := hlk h1
         simp only [h1, hl] at hcount
         simp only [h2, h3]; simp at hcount ⊢; omega
-    · -- local knowledge
-      intro u hu
+    · intro u hu
       simp only [List.mem_append, List.mem_cons] at hu
       have keep : (u ∈ pre ∨ u ∈ post) → TInv L s' u := by
         intro hu'
@@ -245,7 +208,6 @@ theorem inv_step (w : World) (L : Loc) (hL : w.avail L = true) (c c' : Config)
         | outside h1 h2 h3 => subst h3; exact hTu
         | acquire h1 h2 h3 h4 h5 => exact TInv_lc L s s' u h5 hTu
         | inside h1 h2 h3 =>
-          -- t holds, the lock is taken, so nobody else is inside
           have hl := hlk h1
           simp only [h1, hl] at hcount
           have hz : holders pre = 0 ∧ holders post = 0 := by simp at hcount; omega
@@ -273,10 +235,10 @@ theorem inv_reach (w : World) (L : Loc) (hL : w.avail L = true) (c c' : Config)
   | tail _ hs ih => exact inv_step w L hL _ _ ih hs
 
 /-- the initial configuration: lock free, locale `L`, every thread at the start of its program -/
-def Config.start (L : Loc) (progs : List (List Job)) : Config :=
+def Config.start (L : Loc) (progs : List (List Br)) : Config :=
   ⟨⟨false, L⟩, progs.map Thread.init⟩
 
-theorem inv_start (L : Loc) (progs : List (List Job)) : Inv L (Config.start L progs) := by
+theorem inv_start (L : Loc) (progs : List (List Br)) : Inv L (Config.start L progs) := by
   refine ⟨?_, fun _ => rfl, ?_, ?_⟩
   · simp only [Config.start, holders, Bool.false_eq_true, ↓reduceIte]
     apply List.countP_eq_zero.mpr
@@ -302,40 +264,34 @@ theorem holder_enabled (w : World) (s : Shared) (t : Thread) (h : t.pc.holds = t
   unfold step
   cases hpc : t.pc with
   | idle => simp [hpc, Pc.holds] at h
-  | acquire _ _ => simp [hpc, Pc.holds] at h
-  | query _ _ => exact ⟨_, rfl⟩
-  | setReq req fb saved =>
-    simp only
-    by_cases ha : w.avail (w.norm req) = true
-    · simp [ha]
-    · cases fb <;> simp [ha]
-  | setFb saved => simp only; by_cases ha : w.avail enUS = true <;> simp [ha]
-  | failRelease => exact ⟨_, rfl⟩
-  | body saved target n => cases n <;> cases saved <;> simp
-  | restore sv => simp only; by_cases ha : w.avail sv = true <;> simp [ha]
-  | release => exact ⟨_, rfl⟩
+  | acquire _ => simp [hpc, Pc.holds] at h
+  | query _ => exact ⟨_, rfl⟩
+  | trySet b saved =>
+    cases b with
+    | probe req fb =>
+      simp only
+      by_cases ha : w.avail (w.norm req) = true
+      · simp [ha]
+      · cases fb <;> simp [ha]
+    | use eff => simp only; by_cases ha : w.avail eff = true <;> simp [ha]
+  | tryFb saved => simp only; by_cases ha : w.avail enUS = true <;> simp [ha]
+  | call _ _ => exact ⟨_, rfl⟩
+  | restore sv out => simp only; by_cases ha : w.avail sv = true <;> simp [ha]
+  | release _ => exact ⟨_, rfl⟩
 
 /-- with the lock free, every unfinished thread can move -/
 theorem free_enabled (w : World) (s : Shared) (t : Thread) (hl : s.lock = false)
     (hd : t.done = false) : ∃ r, step w s t = some r := by
-  unfold step
-  cases hpc : t.pc with
-  | idle =>
-    cases htd : t.todo with
-    | nil => simp [Thread.done, hpc, htd] at hd
-    | cons j js => simp only; cases j.mgr.lc <;> simp
-  | acquire _ _ => simp [hl]
-  | query _ _ => exact ⟨_, rfl⟩
-  | setReq req fb saved =>
-    simp only
-    by_cases ha : w.avail (w.norm req) = true
-    · simp [ha]
-    · cases fb <;> simp [ha]
-  | setFb saved => simp only; by_cases ha : w.avail enUS = true <;> simp [ha]
-  | failRelease => exact ⟨_, rfl⟩
-  | body saved target n => cases n <;> cases saved <;> simp
-  | restore sv => simp only; by_cases ha : w.avail sv = true <;> simp [ha]
-  | release => exact ⟨_, rfl⟩
+  by_cases hh : t.pc.holds = true
+  · exact holder_enabled w s t hh
+  · unfold step
+    cases hpc : t.pc with
+    | idle =>
+      cases htd : t.todo with
+      | nil => simp [Thread.done, hpc, htd] at hd
+      | cons b bs => simp
+    | acquire _ => simp [hl]
+    | _ => simp [hpc, Pc.holds] at hh
 
 /-! ### at most one holder, index form -/
 
@@ -375,20 +331,18 @@ theorem countP_le_one_index {α : Type} (p : α → Bool) :
 
 /-! ### termination: every step consumes work -/
 
-/-- work left at a program point of a job with `uses` body steps -/
-def Pc.weight (uses : Nat) : Pc → Nat
+/-- work left at a program point -/
+def Pc.weight : Pc → Nat
   | .idle => 0
-  | .acquire _ _ => uses + 9
-  | .query _ _ => uses + 8
-  | .setReq _ _ _ => uses + 7
-  | .setFb _ => uses + 6
-  | .failRelease => 1
-  | .body _ _ n => n + 4
-  | .restore _ => 3
-  | .release => 2
+  | .acquire _ => 7
+  | .query _ => 6
+  | .trySet _ _ => 5
+  | .tryFb _ => 4
+  | .call _ _ => 4
+  | .restore _ _ => 3
+  | .release _ => 2
 
-def Thread.weight (t : Thread) : Nat :=
-  t.pc.weight t.cur.uses + (t.todo.map fun j => j.uses + 10).sum
+def Thread.weight (t : Thread) : Nat := t.pc.weight + 8 * t.todo.length
 
 /-- total work left in a configuration -/
 def Config.weight (c : Config) : Nat := (c.ts.map Thread.weight).sum
@@ -401,62 +355,47 @@ theorem step_weight (w : World) (s s' : Shared) (t t' : Thread)
     simp only [hpc] at h
     cases htd : t.todo with
     | nil => simp [htd] at h
-    | cons j js =>
-      simp only [htd] at h
-      cases hj : j.mgr.lc with
-      | none =>
-        simp only [hj, Option.some.injEq, Prod.mk.injEq] at h
-        obtain ⟨rfl, rfl⟩ := h
-        simp [Thread.weight, Pc.weight, hpc, htd]
-      | some req =>
-        simp only [hj, Option.some.injEq, Prod.mk.injEq] at h
-        obtain ⟨rfl, rfl⟩ := h
-        simp [Thread.weight, Pc.weight, hpc, htd]
-  | acquire req fb =>
+    | cons b bs =>
+      simp only [htd, Option.some.injEq, Prod.mk.injEq] at h
+      obtain ⟨rfl, rfl⟩ := h
+      simp [Thread.weight, Pc.weight, hpc, htd]; omega
+  | acquire b =>
     simp only [hpc] at h
     cases hl : s.lock <;> simp [hl] at h
     obtain ⟨rfl, rfl⟩ := h
     simp [Thread.weight, Pc.weight, hpc]
-  | query req fb =>
+  | query b =>
     simp only [hpc, Option.some.injEq, Prod.mk.injEq] at h
     obtain ⟨rfl, rfl⟩ := h
     simp [Thread.weight, Pc.weight, hpc]
-  | setReq req fb saved =>
+  | trySet b saved =>
     simp only [hpc] at h
-    by_cases ha : w.avail (w.norm req) = true
-    · simp only [ha, ↓reduceIte, Option.some.injEq, Prod.mk.injEq] at h
-      obtain ⟨rfl, rfl⟩ := h
-      simp [Thread.weight, Pc.weight, hpc]
-    · cases fb <;> simp [ha] at h <;> obtain ⟨rfl, rfl⟩ := h <;>
-        simp [Thread.weight, Pc.weight, hpc] <;> omega
-  | setFb saved =>
-    simp only [hpc] at h
-    by_cases ha : w.avail enUS = true
-    · simp only [ha, ↓reduceIte, Option.some.injEq, Prod.mk.injEq] at h
-      obtain ⟨rfl, rfl⟩ := h
-      simp [Thread.weight, Pc.weight, hpc]
-    · simp [ha] at h
-      obtain ⟨rfl, rfl⟩ := h
-      simp [Thread.weight, Pc.weight, hpc]
-  | failRelease =>
-    simp only [hpc, Option.some.injEq, Prod.mk.injEq] at h
-    obtain ⟨rfl, rfl⟩ := h
-    simp [Thread.weight, Pc.weight, hpc]
-  | body saved target n =>
-    simp only [hpc] at h
-    cases n with
-    | succ n =>
-      simp only [Option.some.injEq, Prod.mk.injEq] at h
-      obtain ⟨rfl, rfl⟩ := h
-      simp [Thread.weight, Pc.weight, hpc]
-    | zero =>
-      cases saved <;> simp at h <;> obtain ⟨rfl, rfl⟩ := h <;>
+    cases b with
+    | probe req fb =>
+      simp only at h
+      by_cases ha : w.avail (w.norm req) = true
+      · simp only [ha, ↓reduceIte, Option.some.injEq, Prod.mk.injEq] at h
+        obtain ⟨rfl, rfl⟩ := h
         simp [Thread.weight, Pc.weight, hpc]
-  | restore sv =>
+      · cases fb <;> simp [ha] at h <;> obtain ⟨rfl, rfl⟩ := h <;>
+          simp [Thread.weight, Pc.weight, hpc]
+    | use eff =>
+      simp only at h
+      by_cases ha : w.avail eff = true <;> simp [ha] at h <;> obtain ⟨rfl, rfl⟩ := h <;>
+        simp [Thread.weight, Pc.weight, hpc]
+  | tryFb saved =>
+    simp only [hpc] at h
+    by_cases ha : w.avail enUS = true <;> simp [ha] at h <;> obtain ⟨rfl, rfl⟩ := h <;>
+      simp [Thread.weight, Pc.weight, hpc]
+  | call eff saved =>
+    simp only [hpc, Option.some.injEq, Prod.mk.injEq] at h
+    obtain ⟨rfl, rfl⟩ := h
+    simp [Thread.weight, Pc.weight, hpc]
+  | restore sv out =>
     simp only [hpc] at h
     by_cases ha : w.avail sv = true <;> simp [ha] at h <;> obtain ⟨rfl, rfl⟩ := h <;>
       simp [Thread.weight, Pc.weight, hpc]
-  | release =>
+  | release out =>
     simp only [hpc, Option.some.injEq, Prod.mk.injEq] at h
     obtain ⟨rfl, rfl⟩ := h
     simp [Thread.weight, Pc.weight, hpc]
@@ -485,155 +424,93 @@ theorem ReachN.weight {w : World} {c c' : Config} {n : Nat} (h : ReachN w c c' n
   | refl => omega
   | tail _ hs ih => have := hs.weight_lt; omega
 
-/-! ### outcomes do not depend on the schedule -/
+/-! ### results do not depend on the schedule -/
 
-/-- is the outcome of the current job still to be delivered? -/
-def owesCur (t : Thread) : Bool :=
-  match t.pc with
-  | .idle => false
-  | .restore _ => false
-  | .release => false
-  | _ => true
+/-- the result the bracket in progress will deliver -/
+def owed (w : World) : Pc → List Out
+  | .idle => []
+  | .acquire b => [b.expected w]
+  | .query b => [b.expected w]
+  | .trySet b _ => [b.expected w]
+  | .tryFb _ => [if w.avail enUS then .ok else .err .FOCH0002]
+  | .call _ _ => [.ok]
+  | .restore _ out => [out]
+  | .release out => [out]
 
-/-- the outcomes the thread has not delivered yet -/
-def pending (w : World) (t : Thread) : List Out :=
-  (if owesCur t then [t.cur.expected w] else []) ++ t.todo.map (Job.expected w)
-
-/-- what the program point records about the job being run -/
-def Link (w : World) (t : Thread) : Prop :=
-  match t.pc with
-  | .acquire req fb => t.cur.mgr.lc = some req ∧ t.cur.mgr.fallback = fb
-  | .query req fb => t.cur.mgr.lc = some req ∧ t.cur.mgr.fallback = fb
-  | .setReq req fb _ => t.cur.mgr.lc = some req ∧ t.cur.mgr.fallback = fb
-  | .setFb _ => ∃ req, t.cur.mgr.lc = some req ∧ t.cur.mgr.fallback = true ∧
-      w.avail (w.norm req) = false
-  | .failRelease => t.cur.expected w = .err .FOCH0002
-  | .body _ _ _ => t.cur.expected w = t.cur.bodyOut
-  | _ => True
-
-/-- delivered ++ owed = the outcomes of the whole program, each computed from the job and the
-installed locales alone -/
+/-- delivered ++ owed ++ still to run = the results of the whole program, each computed from the
+bracket and the installed locales alone -/
 def OutInv (w : World) (t : Thread) : Prop :=
-  Link w t ∧ t.outs ++ pending w t = t.prog.map (Job.expected w)
+  t.outs ++ owed w t.pc ++ t.todo.map (Br.expected w) = t.prog.map (Br.expected w)
 
 theorem step_out (w : World) (s s' : Shared) (t t' : Thread)
     (h : step w s t = some (s', t')) (hO : OutInv w t)
-    (hr : ∀ sv, t.pc = .restore sv → w.avail sv = true) :
+    (hr : ∀ sv out, t.pc = .restore sv out → w.avail sv = true) :
     OutInv w t' ∧ t'.prog = t.prog := by
-  obtain ⟨hlink, hout⟩ := hO
+  unfold OutInv at *
   unfold step at h
   cases hpc : t.pc with
   | idle =>
     simp only [hpc] at h
     cases htd : t.todo with
     | nil => simp [htd] at h
-    | cons j js =>
-      simp only [htd] at h
-      cases hj : j.mgr.lc with
-      | none =>
-        simp only [hj, Option.some.injEq, Prod.mk.injEq] at h
-        obtain ⟨rfl, rfl⟩ := h
-        refine ⟨⟨?_, ?_⟩, rfl⟩
-        · simp [Link, Job.expected, hj]
-        · simpa [pending, owesCur, hpc, htd] using hout
-      | some req =>
-        simp only [hj, Option.some.injEq, Prod.mk.injEq] at h
-        obtain ⟨rfl, rfl⟩ := h
-        refine ⟨⟨?_, ?_⟩, rfl⟩
-        · simp [Link, hj]
-        · simpa [pending, owesCur, hpc, htd] using hout
-  | acquire req fb =>
+    | cons b bs =>
+      simp only [htd, Option.some.injEq, Prod.mk.injEq] at h
+      obtain ⟨rfl, rfl⟩ := h
+      exact ⟨by simpa [owed, hpc, htd] using hO, rfl⟩
+  | acquire b =>
     simp only [hpc] at h
     cases hl : s.lock <;> simp [hl] at h
     obtain ⟨rfl, rfl⟩ := h
-    refine ⟨⟨?_, ?_⟩, rfl⟩
-    · simpa [Link, hpc] using hlink
-    · simpa [pending, owesCur, hpc] using hout
-  | query req fb =>
+    exact ⟨by simpa [owed, hpc] using hO, rfl⟩
+  | query b =>
     simp only [hpc, Option.some.injEq, Prod.mk.injEq] at h
     obtain ⟨rfl, rfl⟩ := h
-    refine ⟨⟨?_, ?_⟩, rfl⟩
-    · simpa [Link, hpc] using hlink
-    · simpa [pending, owesCur, hpc] using hout
-  | setReq req fb saved =>
+    exact ⟨by simpa [owed, hpc] using hO, rfl⟩
+  | trySet b saved =>
     simp only [hpc] at h
-    have hl : t.cur.mgr.lc = some req ∧ t.cur.mgr.fallback = fb := by simpa [Link, hpc] using hlink
-    by_cases ha : w.avail (w.norm req) = true
-    · simp only [ha, ↓reduceIte, Option.some.injEq, Prod.mk.injEq] at h
-      obtain ⟨rfl, rfl⟩ := h
-      refine ⟨⟨?_, ?_⟩, rfl⟩
-      · simp [Link, Job.expected, hl.1, ha]
-      · simpa [pending, owesCur, hpc] using hout
-    · cases fb with
-      | true =>
-        simp [ha] at h
+    cases b with
+    | probe req fb =>
+      simp only at h
+      by_cases ha : w.avail (w.norm req) = true
+      · simp only [ha, ↓reduceIte, Option.some.injEq, Prod.mk.injEq] at h
         obtain ⟨rfl, rfl⟩ := h
-        refine ⟨⟨?_, ?_⟩, rfl⟩
-        · exact ⟨req, hl.1, hl.2, by simpa using ha⟩
-        · simpa [pending, owesCur, hpc] using hout
-      | false =>
-        simp [ha] at h
-        obtain ⟨rfl, rfl⟩ := h
-        refine ⟨⟨?_, ?_⟩, rfl⟩
-        · simp [Link, Job.expected, hl.1, hl.2, ha]
-        · simpa [pending, owesCur, hpc] using hout
-  | setFb saved =>
+        exact ⟨by simpa [owed, hpc, Br.expected, Mgr.effective, ha] using hO, rfl⟩
+      · cases fb with
+        | true =>
+          simp [ha] at h
+          obtain ⟨rfl, rfl⟩ := h
+          refine ⟨?_, rfl⟩
+          by_cases h2 : w.avail enUS = true <;>
+            simpa [owed, hpc, Br.expected, Mgr.effective, ha, h2] using hO
+        | false =>
+          simp [ha] at h
+          obtain ⟨rfl, rfl⟩ := h
+          exact ⟨by simpa [owed, hpc, Br.expected, Mgr.effective, ha] using hO, rfl⟩
+    | use eff =>
+      simp only at h
+      by_cases ha : w.avail eff = true <;> simp [ha] at h <;> obtain ⟨rfl, rfl⟩ := h <;>
+        exact ⟨by simpa [owed, hpc, Br.expected, ha] using hO, rfl⟩
+  | tryFb saved =>
     simp only [hpc] at h
-    obtain ⟨req, h1, h2, h3⟩ : ∃ req, t.cur.mgr.lc = some req ∧ t.cur.mgr.fallback = true ∧
-      w.avail (w.norm req) = false := by simpa [Link, hpc] using hlink
-    by_cases ha : w.avail enUS = true
-    · simp only [ha, ↓reduceIte, Option.some.injEq, Prod.mk.injEq] at h
-      obtain ⟨rfl, rfl⟩ := h
-      refine ⟨⟨?_, ?_⟩, rfl⟩
-      · simp [Link, Job.expected, h1, h2, h3, ha]
-      · simpa [pending, owesCur, hpc] using hout
-    · simp [ha] at h
-      obtain ⟨rfl, rfl⟩ := h
-      refine ⟨⟨?_, ?_⟩, rfl⟩
-      · simp [Link, Job.expected, h1, h2, h3, ha]
-      · simpa [pending, owesCur, hpc] using hout
-  | failRelease =>
+    by_cases ha : w.avail enUS = true <;> simp [ha] at h <;> obtain ⟨rfl, rfl⟩ := h <;>
+      exact ⟨by simpa [owed, hpc, ha] using hO, rfl⟩
+  | call eff saved =>
     simp only [hpc, Option.some.injEq, Prod.mk.injEq] at h
     obtain ⟨rfl, rfl⟩ := h
-    have hl : t.cur.expected w = .err .FOCH0002 := by simpa [Link, hpc] using hlink
-    refine ⟨⟨by simp [Link], ?_⟩, rfl⟩
-    simpa [pending, owesCur, hpc, hl] using hout
-  | body saved target n =>
+    exact ⟨by simpa [owed, hpc] using hO, rfl⟩
+  | restore sv out =>
     simp only [hpc] at h
-    have hl : t.cur.expected w = t.cur.bodyOut := by simpa [Link, hpc] using hlink
-    cases n with
-    | succ n =>
-      simp only [Option.some.injEq, Prod.mk.injEq] at h
-      obtain ⟨rfl, rfl⟩ := h
-      refine ⟨⟨by simpa [Link] using hl, ?_⟩, rfl⟩
-      simpa [pending, owesCur, hpc] using hout
-    | zero =>
-      cases saved with
-      | none =>
-        simp at h
-        obtain ⟨rfl, rfl⟩ := h
-        refine ⟨⟨by simp [Link], ?_⟩, rfl⟩
-        simpa [pending, owesCur, hpc, hl] using hout
-      | some sv =>
-        simp at h
-        obtain ⟨rfl, rfl⟩ := h
-        refine ⟨⟨by simp [Link], ?_⟩, rfl⟩
-        simpa [pending, owesCur, hpc, hl] using hout
-  | restore sv =>
-    simp only [hpc] at h
-    have ha := hr sv hpc
+    have ha := hr sv out hpc
     simp [ha] at h
     obtain ⟨rfl, rfl⟩ := h
-    refine ⟨⟨by simp [Link], ?_⟩, rfl⟩
-    simpa [pending, owesCur, hpc] using hout
-  | release =>
+    exact ⟨by simpa [owed, hpc] using hO, rfl⟩
+  | release out =>
     simp only [hpc, Option.some.injEq, Prod.mk.injEq] at h
     obtain ⟨rfl, rfl⟩ := h
-    refine ⟨⟨by simp [Link], ?_⟩, rfl⟩
-    simpa [pending, owesCur, hpc] using hout
+    exact ⟨by simpa [owed, hpc] using hO, rfl⟩
 
 /-- threads keep their programs, in place -/
-def Progs (c : Config) : List (List Job) := c.ts.map (·.prog)
+def Progs (c : Config) : List (List Br) := c.ts.map (·.prog)
 
 theorem out_step (w : World) (L : Loc) (hL : w.avail L = true) (c c' : Config)
     (hi : Inv L c) (ho : ∀ t ∈ c.ts, OutInv w t) (hs : Step w c c') :
@@ -641,8 +518,8 @@ theorem out_step (w : World) (L : Loc) (hL : w.avail L = true) (c c' : Config)
   cases hs with
   | mk s s' pre post t t' h =>
     have hmem : t ∈ pre ++ t :: post := by simp
-    have hr : ∀ sv, t.pc = .restore sv → w.avail sv = true := by
-      intro sv hpc
+    have hr : ∀ sv out, t.pc = .restore sv out → w.avail sv = true := by
+      intro sv out hpc
       have := hi.local_ t hmem
       simp only [TInv, hpc] at this
       rw [this]; exact hL
@@ -665,46 +542,31 @@ theorem out_reach (w : World) (L : Loc) (hL : w.avail L = true) (c c' : Config)
     obtain ⟨h1, h2⟩ := out_step w L hL _ _ hi' ih.1 hs
     exact ⟨h1, h2.trans ih.2⟩
 
-theorem out_start (w : World) (L : Loc) (progs : List (List Job)) :
+theorem out_start (w : World) (L : Loc) (progs : List (List Br)) :
     (∀ t ∈ (Config.start L progs).ts, OutInv w t) ∧ Progs (Config.start L progs) = progs := by
   refine ⟨?_, ?_⟩
   · intro t ht
     simp only [Config.start, List.mem_map] at ht
     obtain ⟨p, _, rfl⟩ := ht
-    simp [OutInv, Link, Thread.init, pending, owesCur]
+    simp [OutInv, Thread.init, owed]
   · simp [Progs, Config.start, Thread.init, Function.comp_def]
 
-/-! ### the schedule-independent outcome is the sequential one -/
-
-/-- the flat evaluation tree of a job -/
-def Job.toEv (j : Job) : Ev := .call (.ok j.mgr) [] (if j.raises then some 0 else none)
-
-/-- `Job.expected` is what the sequential model (`evalEv`) returns for the job, started with
-the lock free in an installed locale -/
-theorem evalEv_flat_expected (w : World) (j : Job) (σ : State) (hl : σ.lock = false)
-    (ha : w.avail σ.lc = true) : ∃ σ', evalEv w j.toEv σ = .ok (j.expected w) σ' := by
-  unfold Job.toEv Job.expected
-  cases hm : j.mgr.lc with
-  | none =>
-    cases hr : j.raises <;>
-      simp [evalEv, evalEvs, enter_noLocale w j.mgr σ hm, finish_none, Job.bodyOut, hr]
-  | some req =>
-    rcases enter_free w j.mgr σ req hm hl with ⟨σ1, he, _, hav, htg, _, _⟩ | ⟨σ1, he, _, hna, hfb⟩
-    · have hcond : (w.avail (w.norm req) || (j.mgr.fallback && w.avail enUS)) = true := by
-        rcases htg with h | ⟨h1, _, h3⟩
-        · rw [h] at hav; simp [hav]
-        · rw [h3] at hav; simp [h1, hav]
-      cases hr : j.raises with
-      | false =>
-        obtain ⟨σ', hf, _⟩ := finish_some w .ok σ1 σ.lc ha
-        exact ⟨σ', by simp [evalEv, evalEvs, he, hf, hcond, Job.bodyOut, hr]⟩
-      | true =>
-        obtain ⟨σ', hf, _⟩ := finish_some w (.err (.body 0)) σ1 σ.lc ha
-        exact ⟨σ', by simp [evalEv, evalEvs, he, hf, hcond, Job.bodyOut, hr]⟩
-    · have hcond : (w.avail (w.norm req) || (j.mgr.fallback && w.avail enUS)) = false := by
-        cases hf : j.mgr.fallback with
-        | false => simp [hna]
-        | true => simp [hna, hfb hf]
-      exact ⟨σ1, by simp [evalEv, he, hcond]⟩
+/-- a bracket run alone from a clean state returns `Br.expected` and restores the state: the
+schedule-independent result is the sequential one -/
+theorem runBr_expected (w : World) (b : Br) (σ : State) (hl : σ.lock = false)
+    (ha : w.avail σ.lc = true) :
+    ∃ σ', Restored σ σ' ∧
+      runBr w b σ = (match b.expected w with | .ok => .ok () σ' | .err e => .err e σ') := by
+  cases b with
+  | probe req fb =>
+    obtain ⟨σ', hr, hp⟩ := probe_clean w ⟨some req, fb⟩ σ hl ha
+    refine ⟨σ', hr, ?_⟩
+    simp only [runBr, hp, Br.expected, Mgr.supported, Option.isNone_some, Bool.false_or]
+    cases h : (Mgr.effective w ⟨some req, fb⟩).isSome <;> simp
+  | use eff =>
+    obtain ⟨σ', hr, hu⟩ := useLoc_clean w eff σ hl ha
+    refine ⟨σ', hr, ?_⟩
+    simp only [runBr, hu, Br.expected]
+    cases h : w.avail eff <;> simp
 
 end EPV.Globals.Thr
